@@ -164,7 +164,7 @@ func Extract(s *Shape, rv reflect.Value) *Val {
 		v := &Val{L: make([]*Val, len(s.Fields))}
 		for i, f := range s.Fields {
 			fd := rv.Field(f.Idx)
-			if (f.S.Kind == Ptr || f.S.Kind == Iface) && fd.IsNil() {
+			if (f.S.Kind == Ptr || f.S.Kind == Iface || (f.S.Kind == BigInt && f.Optional)) && fd.IsNil() {
 				v.L[i] = &Val{Nil: true}
 				continue
 			}
